@@ -162,7 +162,8 @@ pub fn strict_load(b: &[u8]) -> Result<StrictDoc, String> {
         let lens: BTreeMap<u32, (usize, u16)> = rev.entries.clone();
         for (num, (off, gen)) in rev.entries.iter() {
             if (*num as i64) >= rev.size { return rule("Size does not exceed every object number"); }
-            if Some(*num) == rev.xref_stream_id { continue; }
+            // the cross-reference stream occupies its number in this revision: an older object of that number is shadowed
+            if Some(*num) == rev.xref_stream_id { seen_nums.entry(*num).or_insert(revisions); continue; }
             let resolve = |id: (u32, u16)| -> Option<i64> { let (o, g) = lens.get(&id.0)?; if *g != id.1 { return None; } match object_at(b, *o, id.0, id.1, &|_| None).ok()?.0 { Object::Integer(n) => Some(n), _ => None } };
             let (obj, e) = object_at(b, *off, *num, *gen, &resolve)?;
             segs.push((*off, e, "object"));
